@@ -119,7 +119,9 @@ def r_tables(c):
                 f"no generator for pytato's scalar node {node}")
     # function name spaces the front end emits have consuming branches
     mc = m.func(IEGM + ".map_call")
-    src = ast.unparse(mc)
+    # (normal form: `function = expr.function`, a named prefix constant and
+    # len(<that constant>) are what they stand for)
+    src = ast.unparse(m.normal(mc))
     ap = m.func("pytato.cmath._apply_elem_wise_func")
     fsrc = ast.unparse(ap)
     # default name space literal
